@@ -21,6 +21,9 @@ def classify_known(rec, gmodel, known_ids):
     if out == "mismatch":
         vs = sqlast.variants(q.sx)
         if not vs:
+            if "lateral" in q.classes and "lateral-nested-correlation-wrong-result" in known_ids and \
+                    sqlast.lateral_nested_correlation(sqlast.parse(q.sx)):
+                return "lateral-nested-correlation-wrong-result"
             return None
         dbsx = rec["dbsx"]
         got = "(" + " ".join("(" + " ".join(sqlrun.cell_sx(x) for x in row) + ")" for row in e["rows"]) + ")"
@@ -34,13 +37,18 @@ def classify_known(rec, gmodel, known_ids):
                     if part.split("~")[0] not in known_ids:
                         return None
                 return "+".join(sorted(set(part.split("~")[0] for part in i.split("+"))))
+        if "lateral" in q.classes and "lateral-nested-correlation-wrong-result" in known_ids and \
+                sqlast.lateral_nested_correlation(sqlast.parse(q.sx)):
+            return "lateral-nested-correlation-wrong-result"
         return None
     msg = ""
     if isinstance(e, dict):
         msg = e.get("err") or e.get("panic") or e.get("hang") or ""
         full = e.get("err_full") or msg
         if out == "engine_error" and e.get("phase", "plan") == "plan" and "lateral" in q.classes and \
-                "Column expr not referencing a valid table ref" in full and "lateral-nested-correlation-plan-error" in known_ids:
+                ("Column expr not referencing a valid table ref" in full or "Table ref is invalid" in full) and \
+                "lateral-nested-correlation-plan-error" in known_ids and \
+                sqlast.lateral_nested_correlation(sqlast.parse(q.sx)):
             # class: a LATERAL subquery that itself contains a subquery (or a further LATERAL) referencing columns
             # from outside fails in the dependent-join pushdown with this internal error, optimizer on or off
             return "lateral-nested-correlation-plan-error"
